@@ -36,13 +36,24 @@ func runC20(c *Check) {
 // interleave and one is lost, although every single access is locked.
 func (c *Check) snapshotPublish() {
 	p := c.P
-	var glob *ssa.Global
-	if sp := p.SSAPkg("internal/driver"); sp != nil {
-		glob, _ = sp.Members["currentCfg"].(*ssa.Global)
-	}
-	if glob == nil {
-		c.undecided("C20-R4", "snapshot:currentCfg", "", "global driver.currentCfg not found")
+	store := findOptionStore(p)
+	if store == nil {
+		c.undecided("C20-R4", "snapshot:currentCfg", "", "the persistent option store of package driver was not found")
 		return
+	}
+	glob := store.global
+	// isStore: the address of the stored config (the global itself, or the config field of a
+	// store object)
+	isStore := func(a ssa.Value) bool {
+		if store.direct {
+			return a == ssa.Value(glob)
+		}
+		fa, ok := a.(*ssa.FieldAddr)
+		if !ok {
+			return false
+		}
+		T, F := fieldOf(fa.X.Type(), fa.Field)
+		return T == store.T && F == store.cfgField
 	}
 	getters, setters := map[*ssa.Function]bool{}, map[*ssa.Function]bool{}
 	forAllPkgFuncs(p, "internal/driver", func(f *ssa.Function) {
@@ -50,7 +61,7 @@ func (c *Check) snapshotPublish() {
 			for _, ins := range b.Instrs {
 				switch x := ins.(type) {
 				case *ssa.Store:
-					if globalOf(x.Addr) == glob && x.Addr == ssa.Value(glob) {
+					if isStore(x.Addr) {
 						if _, isP := x.Val.(*ssa.Parameter); isP {
 							setters[f] = true
 						}
@@ -58,7 +69,7 @@ func (c *Check) snapshotPublish() {
 				case *ssa.UnOp:
 					// a whole-value load in a function returning that type (the return itself is
 					// spilled through a result cell when the unlock is deferred)
-					if x.Op == token.MUL && x.X == ssa.Value(glob) && f.Signature.Results().Len() == 1 &&
+					if x.Op == token.MUL && isStore(x.X) && f.Signature.Results().Len() == 1 &&
 						types.Identical(f.Signature.Results().At(0).Type(), x.Type()) {
 						getters[f] = true
 					}
@@ -66,8 +77,36 @@ func (c *Check) snapshotPublish() {
 			}
 		}
 	})
+	// wrappers: a function that hands its own parameter to a setter, or returns a getter's result
+	for changed := true; changed; {
+		changed = false
+		forAllPkgFuncs(p, "internal/driver", func(f *ssa.Function) {
+			for _, b := range f.Blocks {
+				for _, ins := range b.Instrs {
+					call, ok := ins.(*ssa.Call)
+					if !ok || call.Call.StaticCallee() == nil {
+						continue
+					}
+					if setters[call.Call.StaticCallee()] && !setters[f] {
+						for _, a := range call.Call.Args {
+							if par, isP := a.(*ssa.Parameter); isP && structName(par.Type()) == "driver.config" {
+								setters[f], changed = true, true
+							}
+						}
+					}
+					if getters[call.Call.StaticCallee()] && !getters[f] && f.Signature.Results().Len() == 1 && call.Referrers() != nil {
+						for _, r := range *call.Referrers() {
+							if _, isRet := r.(*ssa.Return); isRet {
+								getters[f], changed = true, true
+							}
+						}
+					}
+				}
+			}
+		})
+	}
 	if len(getters) == 0 || len(setters) == 0 {
-		c.undecided("C20-R4", "snapshot:currentCfg", "", fmt.Sprintf("locked accessors of driver.currentCfg not recognised (%d getters, %d setters)", len(getters), len(setters)))
+		c.undecided("C20-R4", "snapshot:currentCfg", "", fmt.Sprintf("locked accessors of the option store %s not recognised (%d getters, %d setters)", store.storeName(), len(getters), len(setters)))
 		return
 	}
 	// session roots: everything that runs once commands or requests are being served
@@ -97,7 +136,7 @@ func (c *Check) snapshotPublish() {
 				}
 			}
 		}
-		if set == nil {
+		if set == nil || setters[f] {
 			return
 		}
 		n++
@@ -243,10 +282,17 @@ func (c *Check) perRequestState(rule string) {
 // guardedGlobals: every reference to the global is made with the mutex held.
 func (c *Check) guardedGlobals() {
 	p := c.P
-	for _, g := range []struct{ rel, name, mu string }{
-		{"internal/driver", "currentCfg", "global:currentMu"},
-		{"internal/driver", "tempFiles", "global:tempFilesMu"},
-	} {
+	globals := []struct{ rel, name, mu string }{{"internal/driver", "tempFiles", "global:tempFilesMu"}}
+	if store := findOptionStore(p); store == nil {
+		c.undecided("C20-R1", "anchor:currentCfg", "", "the persistent option store of package driver was not found")
+	} else if store.direct {
+		globals = append([]struct{ rel, name, mu string }{{"internal/driver", store.global.Name(), store.muGlobal}}, globals...)
+	} else {
+		// the options live in a struct next to their mutex: every access of the field is made
+		// with that object's mutex held
+		c.guardedField(guardedFieldSpec{T: store.T, F: store.cfgField, mu: store.muField})
+	}
+	for _, g := range globals {
 		gv := p.SSAPkg(g.rel).Var(g.name)
 		if gv == nil {
 			c.undecided("C20-R1", "anchor:"+g.name, "", "global "+g.name+" not found")
@@ -297,17 +343,26 @@ func fieldAccesses(p *Program, T, F string) []*ssa.FieldAddr {
 }
 
 // guardedFields: struct fields guarded by a mutex of the same object.
+type guardedFieldSpec struct {
+	T, F, mu string
+	// teardown: methods allowed to touch the field without the lock (end of life)
+	teardown map[string]string
+}
+
 func (c *Check) guardedFields() {
-	p := c.P
-	for _, g := range []struct {
-		T, F, mu string
-		// teardown: methods allowed to touch the field without the lock (end of life)
-		teardown map[string]string
-	}{
+	for _, g := range []guardedFieldSpec{
 		{"binutils.Binutils", "rep", "mu", nil},
 		{"binutils.addr2Liner", "rw", "mu", map[string]string{"(*binutils.fileAddr2Line).Close": "closes the pipe when the object file is released; no symbolization call can follow"}},
 		{"binutils.llvmSymbolizer", "rw", "Mutex", map[string]string{"(*binutils.fileAddr2Line).Close": "closes the pipe when the object file is released; no symbolization call can follow"}},
 	} {
+		c.guardedField(g)
+	}
+}
+
+// guardedField: struct field g.T.g.F is only accessed with the mutex g.mu of the same object held.
+func (c *Check) guardedField(g guardedFieldSpec) {
+	p := c.P
+	for once := true; once; once = false {
 		accs := fieldAccesses(p, g.T, g.F)
 		if len(accs) == 0 {
 			c.undecided("C20-R1", "guard:"+g.T+"."+g.F, "", "no access of "+g.T+"."+g.F+" found")
@@ -334,6 +389,10 @@ func (c *Check) guardedFields() {
 			}
 			if allFresh {
 				c.ok("C20-R1", key, pos, g.T+"."+g.F+" initialised in "+fnName(f), "the object is freshly allocated and not yet shared")
+				continue
+			}
+			if f.Name() == "init" && f.Parent() == nil && f.Signature.Recv() == nil {
+				c.ok("C20-R1", key, pos, g.T+"."+g.F+" initialised by the package initialiser", "runs before any other goroutine of the program exists")
 				continue
 			}
 			if why, ok := g.teardown[fnName(f)]; ok {
